@@ -142,7 +142,8 @@ class Ctx:
     def call(self, label, fn, *a, **kw):
         """in-domain call: an exception (incl. native panics, BaseException) is a violation"""
         self.counters["call:" + label] += 1
-        DEPTH.clear()
+        if not _busy:
+            DEPTH.clear()
         try:
             return fn(*a, **kw)
         except (KeyboardInterrupt, SystemExit, ContractBroken):
@@ -232,8 +233,10 @@ def _decorate(fn, post, snap, label, top_only=False):
         with guard():
             try:
                 ok = post(OLD.pre, _ARGS, _KWARGS, result)
-            except (ContractBroken, CaseAbort):
+            except ContractBroken:
                 raise
+            except CaseAbort:
+                return True        # a function under observation that the monitor itself called raised: already recorded as a violation
             except OutOfScope:
                 CTX.count("out_of_scope:" + label)
                 return True
